@@ -220,3 +220,128 @@ package server
 //@ structural C01: calls (*Conn).SendDatagram in (*udpIOImpl).SendMessage
 //@ structural C01: calls copyTwoWay in (*h3sHandler).handleTCPRequest
 //@ structural C01: calls copyTwoWayEx in (*h3sHandler).handleTCPRequest
+
+// ---------------------------------------------------------------------------
+// UDP sessions and the outbound policy (C08). The policy is an arbitrary but fixed
+// predicate on destination strings per udpIO: allowUDP(io, addr). CheckUDP reports it;
+// UDP() dials only what it allows (the adapter in extras/outbounds walks the same ACL for
+// both; that is the assumption recorded on the two interface methods).
+//@ uf allowUDP(Int, Str) Bool
+//@ iface udpIO.CheckUDP(io, a) (err)
+//@   ensures isnil(err) == allowUDP(payload(io), a)
+//@ iface udpIO.UDP(io, a) (conn, err)
+//@   ensures isnil(err) ==> !isnil(conn) && allowUDP(payload(io), a)
+//@ iface udpIO.Hook(io, data, reqAddr) (err)
+//@   modifies *reqAddr
+//@ iface UDPConn.WriteTo(c, b, a) (n, err)
+//@ iface UDPConn.ReadFrom(c, b) (n, a, err)
+//@   ensures n <= len(b) && (isnil(err) ==> n >= 0)
+//@   modifies b[0:len(b)]
+//@ iface UDPConn.Close(c) (err)
+
+// the dial function of a session: success means the dialled address (after the hook's
+// rewrite) passed the policy of the session's IO
+//@ fnfield udpSessionEntry.DialFunc(this, addr, data) (conn, actual, err)
+//@   ensures isnil(err) ==> !isnil(conn) && actual != "" && allowUDP(payload(this.IO), actual)
+//@ fnfield udpSessionEntry.ExitFunc(this, err)
+
+// the decision cache holds the policy's own verdicts (its size cap is a resource matter the property does not state)
+// (a session whose destination the hook rewrote never consults the cache)
+//@ spec func cacheOK(e) = e.aclCache != nil && e.OverrideAddr == "" ==> forallKey(a, e.aclCache, isnil(e.aclCache[a]) == allowUDP(payload(e.IO), a))
+//@ objinv udpSessionEntry: cacheOK(this) && this.D != nil && this.Last != nil && !isnil(this.IO) && (isnil(this.conn) ==> this.OverrideAddr == "")
+
+//@ func (*udpSessionEntry).checkAddr
+//@   props C08
+//@   nonil
+//@   requires e.OverrideAddr == ""
+//@   ensures isnil(ret) == allowUDP(payload(e.IO), addr)
+//@   modifies e.aclCache, region("map<string,error>.dom"), region("map<string,error>.size"), region("map<string,error>.val.tag"), region("map<string,error>.val.payload")
+//@   loop 0
+//@     invariant cacheOK(e) && e.aclCache != nil
+
+//@ guard call UDPConn.WriteTo(c, b, a) in (*udpSessionEntry).Feed
+//@   props C08
+//@   requires (e.OverrideAddr != "" && a == e.OverrideAddr) || (e.OverrideAddr == "" && a == dfMsg.Addr && allowUDP(payload(e.IO), a))
+//@   requires b == dfMsg.Data
+
+//@ func (*udpSessionEntry).Feed
+//@   props C08
+//@   nonil
+//@   requires msg != nil
+//@   modifies any
+
+//@ func (*udpSessionEntry).initConn
+//@   props C08
+//@   nonil
+//@   requires firstMsg != nil && isnil(e.conn) && e.OverrideAddr == ""
+//@   ensures isnil(ret) ==> !isnil(e.conn) && (e.OverrideAddr == "" ==> allowUDP(payload(e.IO), firstMsg.Addr))
+//@   ensures isnil(ret) && e.OverrideAddr != "" ==> allowUDP(payload(e.IO), e.OverrideAddr) && e.OriginalAddr == firstMsg.Addr
+//@   modifies any
+
+// replies: every packet read from the session's socket goes back under the session's own ID,
+// from the original address when the hook rewrote the destination, carrying exactly the bytes read
+//@ ghost var rlN Int
+//@ ghost var rlAddr Str
+//@ hook after call UDPConn.ReadFrom(c, b) (n, a, err) in (*udpSessionEntry).receiveLoop
+//@   update rlN = n
+//@   update rlAddr = a
+//@ guard call UDPConn.ReadFrom(c, b) in (*udpSessionEntry).receiveLoop
+//@   props C08 C07
+//@   requires c == e.conn && b == udpBuf
+//@ guard call sendMessageAutoFrag(io, buf, msg) in (*udpSessionEntry).receiveLoop
+//@   props C08 C07
+//@   requires io == e.IO && msg != nil && msg.SessionID == e.ID && msg.FragCount == 1 && msg.FragID == 0
+//@   requires msg.Addr == ite(e.OriginalAddr != "", e.OriginalAddr, rlAddr)
+//@   requires base(msg.Data) == base(udpBuf) && off(msg.Data) == off(udpBuf) && len(msg.Data) == rlN && base(buf) != base(udpBuf)
+
+//@ func (*udpSessionEntry).receiveLoop
+//@   props C08 C07
+//@   nonil
+//@   requires !isnil(e.conn)
+//@   modifies any
+//@   loop 0
+//@     invariant !isnil(e.conn) && len(udpBuf) == 4096 && len(msgBuf) == 4096 && base(udpBuf) != base(msgBuf) && !isnil(e.IO) && e.Last != nil
+
+//@ iface udpIO.SendMessage(io, buf, msg) (err)
+//@   modifies buf[0:len(buf)]
+// quic-go reports the size that would have fitted; it is never negative (assumed of the library)
+//@ axiom DTL_NONNEG (p *quic.DatagramTooLargeError): p != nil ==> p.MaxDatagramPayloadSize >= 0
+//@ hook after call errors.As(err, target) (ok) in sendMessageAutoFrag
+//@   use DTL_NONNEG(*unboxptr(target))
+//@ func sendMessageAutoFrag
+//@   props C08 C07 C05
+//@   requires !isnil(io) && msg != nil
+//@   modifies buf[0:len(buf)], msg.PacketID
+
+// the dial function built for a new session: hook, then dial through the manager's IO; success
+// means the (possibly rewritten) address passed that IO's policy
+//@ func (*udpSessionManager).feed$1
+//@   props C08
+//@   nonil
+//@   requires *m != nil && !isnil((*m).io) && !isnil((*m).eventLogger) && *msg != nil
+//@   ensures isnil(err) ==> !isnil(conn) && allowUDP(payload((*m).io), actualAddr)
+//@   modifies any
+
+//@ func newUDPSessionEntry
+//@   props C08 C07
+//@   ensures e != nil && fresh(e) && e.ID == id && e.IO == io && e.DialFunc == dialFunc && e.ExitFunc == exitFunc && isnil(e.conn) && e.aclCache == nil && e.OverrideAddr == "" && e.OriginalAddr == "" && !e.closed && e.D != nil && e.Last != nil
+
+//@ structural C08: allocs udpSessionEntry in newUDPSessionEntry
+//@ structural C08: refs newUDPSessionEntry in (*udpSessionManager).feed
+//@ structural C08: stores udpSessionEntry.IO in newUDPSessionEntry
+//@ structural C08: stores udpSessionEntry.DialFunc in newUDPSessionEntry
+//@ structural C08: uses udpSessionEntry.aclCache in (*udpSessionEntry).Feed | (*udpSessionEntry).checkAddr
+//@ structural C08: stores udpSessionEntry.OverrideAddr in (*udpSessionEntry).initConn
+//@ structural C08: stores udpSessionEntry.OriginalAddr in (*udpSessionEntry).initConn
+//@ structural C08: stores udpSessionEntry.conn in (*udpSessionEntry).initConn
+
+// the session table (C08): a new session is created through newUDPSessionEntry with the
+// datagram's session ID and the manager's own IO (whose policy the entry then enforces)
+//@ guard call newUDPSessionEntry(id, io, df, ef) in (*udpSessionManager).feed
+//@   props C08
+//@   requires id == msg.SessionID && io == m.io
+//@ func (*udpSessionManager).feed
+//@   props C08
+//@   nonil
+//@   requires msg != nil && m.m != nil
+//@   modifies any
